@@ -1,3 +1,4 @@
+import Fpdec.Kernels.WideDiv
 import Fpdec.Kernels.WideFits
 import Fpdec.Kernels.Wide
 import Fpdec.Kernels.Round
@@ -121,5 +122,18 @@ theorem kernel_i128_shifted_div_rounded (prof : Profile) (tm : Mode) (a : Int) (
 theorem kernel_i128_mul_div_ten_pow_rounded (prof : Profile) (tm : Mode) (x y : Int) (p : Nat) (mode : Option Mode) :
     Gen.K.i128_mul_div_ten_pow_rounded prof tm x y p mode = i128MulDivTenPowRounded prof tm x y p mode :=
   Kernels.i128_mul_div_ten_pow_rounded_eq' prof tm x y p mode
+
+theorem kernel_u128_msb (prof : Profile) (i : Nat) (hi : i < 340282366920938463463374607431768211456) :
+    Gen.K.u128_msb prof i = u128Msb prof i := Kernels.u128_msb_eq prof i hi
+theorem kernel_u256_idiv_u64 (prof : Profile) (xh xl y : Nat) :
+    Gen.K.u256_idiv_u64 prof xh xl y = u256IdivU64 prof xh xl y := Kernels.u256_idiv_u64_eq prof xh xl y
+theorem kernel_u256_idiv_u128 (prof : Profile) (xh xl y : Nat) :
+    Gen.K.u256_idiv_u128 prof xh xl y = u256IdivU128 prof xh xl y := Kernels.u256_idiv_u128_eq prof xh xl y
+/-- the signed wrappers with their sign fix-up, as translated from the source on this run -/
+theorem kernel_i128_shifted_div_mod_floor (prof : Profile) (x : Int) (p : Nat) (y : Int) :
+    Gen.K.i128_shifted_div_mod_floor_k prof x p y = i128ShiftedDivModFloor prof x p y :=
+  Kernels.i128_shifted_div_mod_floor_eq prof x p y
+theorem kernel_i256_div_mod_floor (prof : Profile) (x1 x2 y : Int) :
+    Gen.K.i256_div_mod_floor_k prof x1 x2 y = i256DivModFloor prof x1 x2 y := Kernels.i256_div_mod_floor_eq prof x1 x2 y
 
 end Fpdec.Props.C16
